@@ -453,6 +453,15 @@ static void run_case(int ki, int alg, int base, int pinroute)
 	memset(tmp, 0xff, (size_t)sl); with_sig_bytes(M_CONST, 1, h, p, tmp, (size_t)sl);
 	memset(tmp, 0, (size_t)sl); tmp[sl - 1] = 1; with_sig_bytes(M_CONST, 2, h, p, tmp, (size_t)sl);
 	{ char *t = join3(h, p, ""); try_token(M_EMPTY, 0, t); free(t); }
+	{	/* the same payload under an alg-none header, without and with the genuine signature: a checker that holds a key accepts neither */
+		static const char *NH[] = { "{\"alg\":\"none\"}", "{\"alg\":\"none\",\"typ\":\"JWT\"}", "{\"typ\":\"JWT\",\"alg\":\"none\"}" };
+		for (int q = 0; q < 3; q++) {
+			char *h64 = vh_b64u_enc_dup(NH[q], strlen(NH[q])), *t;
+			t = join3(h64, p, ""); try_token(M_EMPTY, 1 + q, t); free(t);
+			t = join3(h64, p, s); try_token(M_EMPTY, 11 + q, t); free(t);
+			free(h64);
+		}
+	}
 	/* extra segments */
 	{
 		char *t = malloc(strlen(tok) * 2 + 16);
